@@ -50,7 +50,7 @@ Record span_cfg := mkSpan {
   c_slope : Q;               (* power_slope *)
   c_voa_margin : Q; c_voa_step : Q;
   c_ext : Q;                 (* target_extended_gain *)
-  c_maxl : Q;                (* max_fiber_lineic_loss_for_raman, dB/km *)
+  c_maxl : Q;                (* max_fiber_lineic_loss_for_raman * 1e-3: dB/m, the unit of loss_coef *)
   c_padding : Q; c_eol : Q; c_con_in : Q; c_con_out : Q }.
 
 (* ------------------------------------------------------------------ elements of an OMS *)
@@ -222,9 +222,8 @@ Definition set_one (c : span_cfg) (lib : list amp) (bmin bmax pref_total prev_dp
     if String.eqb (n_variety nd) "" then
       let nf := fun x => nf_lookup (an_nfs a) (a_name x) in
       let* (s, red) := auto_select nd prev next bmin bmax (c_maxl c) g0 pt (c_ext c) nf lib in
-      Ok (s, red, Qmin (raman_crit prev (c_maxl c))
-                       (select_crit (raman_allowed prev (c_maxl c)) g0 pt (c_ext c)
-                          (restrict_lib (node_restrictions nd prev next bmin bmax lib) lib)))
+      Ok (s, red, select_crit (raman_allowed prev (c_maxl c)) g0 pt (c_ext c)
+                    (restrict_lib (node_restrictions nd prev next bmin bmax lib) lib))
     else
       match find_amp (n_variety nd) lib with
       | None => Err "KeyError:type_variety"
